@@ -86,6 +86,12 @@ pub struct HistCfg {
     /// a point where it does not hold the database mutex (widens race windows; a legal schedule)
     #[serde(default)]
     pub jitter: u64,
+    /// restrict the jitter to one hook point ("" = all) and its maximal sleep in microseconds
+    /// (0 = 600)
+    #[serde(default)]
+    pub jitter_point: String,
+    #[serde(default)]
+    pub jitter_us: u64,
 }
 
 #[derive(Clone, Debug, Serialize, Deserialize)]
@@ -774,6 +780,11 @@ pub fn run_hist(
     let fs = SimFs::new(ROOT);
     fs.attach(Some(Arc::clone(sink)));
     crate::common::JITTER_PERMILLE.store(cfg.jitter, std::sync::atomic::Ordering::SeqCst);
+    crate::common::JITTER_MAX_US.store(
+        if cfg.jitter_us == 0 { 600 } else { cfg.jitter_us },
+        std::sync::atomic::Ordering::SeqCst,
+    );
+    *crate::common::JITTER_POINT.lock() = cfg.jitter_point.clone();
     install_observer(ROOT, sink, true);
     take_panics();
     let first_event = sink.len();
